@@ -944,7 +944,28 @@ DIRECTED: T.List[T.Tuple[T.List[str], T.Dict[str, T.Any]]] = [
                                         'b1:link_depends.exe_helper': 'archive'}),
     (['generator', 'ct_object', 'ct_header'], {'generator.depends': 'process', 'ct_object.how': 'archive',
                                                'ct_header.variant': 'index'}),
+    # bootstrap layout: a checked-in stub header of the SOURCE tree and a generated header with the same relative
+    # path; the stub is a listed source of the earlier bootstrap tool, the generated twin travels through
+    # declare_dependency(sources:) - the consumers' edges must name the generated file (a consumer compiled too early
+    # silently gets the stub: only running the program tells)
+    (['bootstrap'], {'bootstrap.stub_in': 'tool-sources', 'bootstrap.via': 'dep-sources', 'bootstrap.native': True,
+                     'bootstrap.by_default': True, 'subdir': True}),
+    # depends: holding a PROGRAM object (find_program() of an executable published with override_find_program) whose
+    # path reaches the command line only as a string (prog.full_path() handed to a wrapper script)
+    # (+ a generated source including a custom-target header, non-unity: the compile of a GENERATED source needs the
+    # order-only edges as well - so far only reached by seeded random projects, which run last)
+    (['built_tool', 'gensrc_inc'], {'built_tool.override': True, 'built_tool.ct': True, 'built_tool.ct_how': 'depends-path',
+                                    'built_tool.generator': False, 'built_tool.depends_external': False,
+                                    'gensrc_inc.generator': False, 'unity': False}),
+    # both again in other variants: stub named in depend_files / twin directly in sources; depends: holding the
+    # executable itself next to an external program
+    (['bootstrap', 'built_tool'], {'bootstrap.stub_in': 'depend_files', 'bootstrap.via': 'direct', 'bootstrap.native': False, 'bootstrap.by_default': True,
+                                   'built_tool.override': False, 'built_tool.ct': True, 'built_tool.ct_how': 'depends-path',
+                                   'built_tool.depends_external': True}),
 ]
+
+
+NEWEST_DIRECTED = 3   # trailing entries of DIRECTED that are scheduled first
 
 
 def probe_rpath_project() -> dict:
@@ -1035,7 +1056,7 @@ ASSUMPTIONS = [
     'behaviour of all executables are counted inconclusive, not violations',
 ]
 
-RULE = ('projects are composed from 15 mechanism blocks by gen_c05 (seeded); a case is one project taken through '
+RULE = ('projects are composed from 16 mechanism blocks by gen_c05 (seeded); a case is one project taken through '
         'traced build + race analysis + hermetic replays + adversarial schedules; distinct = distinct feature set '
         '(sorted feature names of the blocks/variants used)')
 
@@ -1091,6 +1112,10 @@ def main() -> int:
         projects.append(gen_c05.generate(chk.seed, i))
         i += 1
     tasks = build_tasks(chk, scratch, projects, nsched, hermetic_all=not quick, deadline=deadline)
+    # under load the schedule layer of late projects is thinned (soft deadline): the directed projects of the most
+    # recently added input classes run first (slots, hence project contents and schedules, are unchanged)
+    nd = len(DIRECTED)
+    tasks = tasks[nd - NEWEST_DIRECTED:nd] + tasks[:nd - NEWEST_DIRECTED] + tasks[nd:]
     results = common.pmap(run_project, tasks, chk.jobs, timeout=budget + 600)
     aggregate(chk, results)
     built = chk.counters.get('monitor:projects_built', 0)
